@@ -14,21 +14,21 @@ import (
 )
 
 // sentph unit (C06): histories on the real sentPacketHandler.
-//   * correspondence: one CASE per history (ops + oracle values + observables after every op + final hidden state);
-//   * property monitors (independent of the model), evaluated after every op:
-//       sentph/callback-twice     a frame id got more than one OnAcked/OnLost
-//       sentph/frame-unresolved   a frame left the handler's data structures without exactly one callback
-//                                 (exempt: space dropped / 0-RTT rejected / path probes discarded by MigratedPath)
-//       sentph/bytes-in-flight    bytesInFlight != sum of lengths of tracked packets flagged in-flight, or the flag
-//                                 differs from (ack-eliciting && !pathProbe)
-//       sentph/num-outstanding    numOutstanding != number of tracked Outstanding() packets
-//       sentph/ack-unsent         ACK with largest > largest sent accepted, or it changed state
-//       sentph/ack-skipped        ACK covering one of the most recent skipped numbers accepted
-//       sentph/ack-old-skipped    ACK covering an older skipped number accepted (replay of the Coq witness
-//                                 C06_ack_any_skipped_refuted; also checked on every generated history)
-//       sentph/ack-valid-rejected an ACK that covers neither unsent nor skipped numbers was rejected as PROTOCOL_VIOLATION
-//       sentph/timer-not-armed    crypto / confirmed app data outstanding, not amplification limited, alarm unset
-//       sentph/panic              the handler panicked
+//   - correspondence: one CASE per history (ops + oracle values + observables after every op + final hidden state);
+//   - property monitors (independent of the model), evaluated after every op:
+//     sentph/callback-twice     a frame id got more than one OnAcked/OnLost
+//     sentph/frame-unresolved   a frame left the handler's data structures without exactly one callback
+//     (exempt: space dropped / 0-RTT rejected / path probes discarded by MigratedPath)
+//     sentph/bytes-in-flight    bytesInFlight != sum of lengths of tracked packets flagged in-flight, or the flag
+//     differs from (ack-eliciting && !pathProbe)
+//     sentph/num-outstanding    numOutstanding != number of tracked Outstanding() packets
+//     sentph/ack-unsent         ACK with largest > largest sent accepted, or it changed state
+//     sentph/ack-skipped        ACK covering one of the most recent skipped numbers accepted
+//     sentph/ack-old-skipped    ACK covering an older skipped number accepted (replay of the Coq witness
+//     C06_ack_any_skipped_refuted; also checked on every generated history)
+//     sentph/ack-valid-rejected an ACK that covers neither unsent nor skipped numbers was rejected as PROTOCOL_VIOLATION
+//     sentph/timer-not-armed    crypto / confirmed app data outstanding, not amplification limited, alarm unset
+//     sentph/panic              the handler panicked
 func init() {
 	units["sentph"] = runSentPH
 	genSources = append(genSources, ackhandler.VerifSentPHConsts)
@@ -89,25 +89,24 @@ func (o *sphOp) term() string {
 
 // sphRun executes ops on one handler, checks the monitors and builds the CASE term.
 type sphRun struct {
-	w                 *bufio.Writer
-	v                 *ackhandler.VerifSentPH
-	hdr               string
-	ops               []string // "(op, oracle, obs)" terms
-	trace             []string // op terms only (monitor detail)
-	cbCount           map[int64]int
-	sentIDs           map[int64]bool
-	exempt            map[int64]bool
-	sentPNs           [3]map[int64]bool
-	skipped           []int64 // application-data numbers the harness saw skipped, in order
-	nextPN            [3]int64
-	started           [3]bool
-	failed            map[string]bool
-	nextID            int64
-	kinds             map[string]int
-	acksWithLoss      int
-	pvErrors          int
-	timeoutsPTO       int
-	panicked          bool
+	w            *bufio.Writer
+	v            *ackhandler.VerifSentPH
+	hdr          string
+	ops          []string // "(op, oracle, obs)" terms
+	trace        []string // op terms only (monitor detail)
+	cbCount      map[int64]int
+	sentIDs      map[int64]bool
+	exempt       map[int64]bool
+	sentPNs      [3]map[int64]bool
+	skipped      []int64 // application-data numbers the harness saw skipped, in order
+	appHi        int64
+	failed       map[string]bool
+	nextID       int64
+	kinds        map[string]int
+	acksWithLoss int
+	pvErrors     int
+	timeoutsPTO  int
+	panicked     bool
 }
 
 func spaceIdx(l int64) int {
@@ -126,6 +125,7 @@ func newSphRun(w *bufio.Writer, client, validated bool, ipn, period, maxPeriod i
 		r.sentPNs[i] = map[int64]bool{}
 	}
 	r.v = ackhandler.VerifSentPHNew(client, validated, ipn, period, maxPeriod)
+	r.appHi = r.v.AppHighest()
 	r.hdr = fmt.Sprintf("%s %s %s %s %s %s", u.B(client), u.B(validated), u.Z(ipn), u.Z(period), u.Z(maxPeriod), u.Z(r.v.Rnd0))
 	return r
 }
@@ -221,15 +221,6 @@ func (r *sphRun) exec(o *sphOp) (ret int64) {
 	case "send":
 		ret, o.rnd = r.v.Send(o.l, o.now, o.la, o.sfs, o.fs, o.size, o.mtu, o.probe)
 		sp := spaceIdx(o.l)
-		if r.started[sp] {
-			for q := r.nextPN[sp]; q < ret; q++ {
-				if sp == 2 {
-					r.skipped = append(r.skipped, q)
-				}
-			}
-		}
-		r.started[sp] = true
-		r.nextPN[sp] = ret + 1
 		r.sentPNs[sp][ret] = true
 		for _, id := range append(append([]int64{}, o.fs...), o.sfs...) {
 			if id >= 0 {
@@ -244,8 +235,9 @@ func (r *sphRun) exec(o *sphOp) (ret int64) {
 		r.v.Drop(o.l, o.now)
 	case "retry":
 		o.rnd = r.v.Retry(o.now)
-		r.started[0], r.started[2] = false, false
 		r.skipped = nil // the application-data space was re-created
+		r.appHi = r.v.AppHighest()
+		r.sentPNs[2] = map[int64]bool{}
 	case "migrate":
 		r.v.Migrate(o.now)
 	case "recvbytes":
@@ -259,6 +251,16 @@ func (r *sphRun) exec(o *sphOp) (ret int64) {
 	case "sendmode":
 		ret = r.v.SendMode(o.now, o.cs, o.hb)
 	}
+	// every application-data number the history has moved past without a SentPacket was skipped
+	// (by the packet number generator or by a PTO expiry)
+	if r.appHi >= 0 { // (a fresh history starts at an arbitrary number: nothing below it was skipped)
+		for q := r.appHi + 1; q <= r.v.AppHighest(); q++ {
+			if !r.sentPNs[2][q] {
+				r.skipped = append(r.skipped, q)
+			}
+		}
+	}
+	r.appHi = r.v.AppHighest()
 	cbs, evs := r.v.Drain()
 	r.record(o, ret, cbs, evs)
 	r.monitors(o, ret, before, bifBefore, largestSentBefore, cbs)
